@@ -22,6 +22,8 @@ CONSTANTS Threshold,        \* commit when more than this many statements are bu
           MaxBuffered,      \* property layer: "a few dozen (about 50)" -> 64
           AgeMust,          \* property layer: "more than about ten seconds" -> 15
           MigrationCommits, \* BOOLEAN: is the data migrated from a legacy database committed before the counter starts at 0
+          BulkDecidesOnce,  \* BOOLEAN: a bulk write of id-carrying and new events takes ONE commit decision after its last
+                            \*          statement (repaired); FALSE: every id-carrying event decides for itself (pinned insert_many)
           BulkSizes,        \* sizes of bulk inserts explored
           TickSizes,        \* virtual-clock increments explored
           MaxIssued, MaxTime
@@ -55,6 +57,25 @@ EventWrite(n, kind) ==
   /\ issued' = issued + n
   /\ IF kind = "delete" /\ ~DeletesCounted THEN counter' = counter /\ NoCommit ELSE Conditional(n)
   /\ last' = [kind |-> "event", prevFlush |-> lastFlush, at |-> now, op |-> kind, n |-> n]
+  /\ UNCHANGED now
+
+\* insert([k id-carrying events, then new events]): k + 1 statements.  Repaired: one decision for the call.  Pinned: the
+\* first id-carrying event decides alone (and resets the clock when it commits), the others decide after it, each for itself -
+\* folded here into "the first statement, then the rest"
+BulkUpsert(k) ==
+  /\ k >= 1
+  /\ issued' = issued + k + 1
+  /\ IF BulkDecidesOnce THEN Conditional(k + 1)
+     ELSE LET c1 == counter + 1
+              fire1 == c1 > Threshold \/ AgeFires
+              counter1 == IF fire1 THEN 0 ELSE c1
+              lc1 == IF fire1 THEN now ELSE lastCommit
+              c2 == counter1 + k
+              fire2 == c2 > Threshold \/ (now - lc1) > AgeLimit
+          IN IF fire2 THEN Commit
+             ELSE /\ counter' = c2
+                  /\ IF fire1 THEN durable' = issued + 1 /\ lastCommit' = now /\ lastFlush' = now ELSE NoCommit
+  /\ last' = [kind |-> "event", prevFlush |-> lastFlush, at |-> now, op |-> "upsert", n |-> k]
   /\ UNCHANGED now
 
 \* create / update / delete of a bucket: 1 or 2 elementary writes, then an unconditional commit
@@ -105,6 +126,7 @@ Init == /\ issued = 0 /\ durable = 0 /\ counter = 0 /\ now = 0 /\ lastCommit = 0
         /\ last = [kind |-> "init", prevFlush |-> 0, at |-> 0, op |-> "init", n |-> 0]
 Next == \/ \E n \in BulkSizes : EventWrite(n, "insert")
         \/ EventWrite(1, "insert") \/ EventWrite(1, "replace") \/ EventWrite(1, "delete")
+        \/ \E k \in {1, 2, 3} : BulkUpsert(k)
         \/ \E n \in {1, 2} : BucketOp(n)
         \/ Read
         \/ FailedOp
